@@ -13,8 +13,10 @@ package ion
 import (
 	"bufio"
 	"bytes"
+	"fmt"
 	"io"
 	"math/big"
+	"strconv"
 	"strings"
 	"time"
 )
@@ -45,6 +47,9 @@ func vcMapAllU64(m map[string]uint64, f func(uint64) bool) bool { return true }
 // the function the clause belongs to, which must declare `counts callee`.
 func vcCalls(callee string) int { return 0 }
 
+// vcFailed("callee"): those of the counted calls that returned a non-nil error.
+func vcFailed(callee string) int { return 0 }
+
 // vcHasKey(m, k): k is present in m.
 func vcHasKey(m map[string]uint64, k string) bool { _, ok := m[k]; return ok }
 
@@ -53,6 +58,9 @@ func vcHasKey(m map[string]uint64, k string) bool { _, ok := m[k]; return ok }
 // a and b share their backing array.
 func vcFresh(x interface{}) bool        { return true }
 func vcSameArray(a, b interface{}) bool { return true }
+
+// vcSameObject(a, b): the interface values a and b hold (a pointer to) the same object.
+func vcSameObject(a, b interface{}) bool { return true }
 
 // ---------------------------------------------------------------------------
 // Ion binary: fixed and variable length integers (Ion 1.0 binary spec,
@@ -766,12 +774,25 @@ func specOffsetMinute(val string, idx int) int64 { _, m, _ := computeOffset(val,
 func specOffsetErr(val string, idx int) error    { _, _, e := computeOffset(val, idx); return e }
 
 // The Reader's current integer as its (pure) accessors report it.
-func specInt64Of(r Reader) *int64        { v, _ := r.Int64Value(); return v }
-func specInt64Err(r Reader) error        { _, e := r.Int64Value(); return e }
-func specBigOf(r Reader) *big.Int        { v, _ := r.BigIntValue(); return v }
-func specBigErr(r Reader) error          { _, e := r.BigIntValue(); return e }
-func specIntOf(r Reader) *int             { v, _ := r.IntValue(); return v }
-func specIntSizeOf(r Reader) IntSize      { v, _ := r.IntSize(); return v }
+func specInt64Of(r Reader) *int64 { v, _ := r.Int64Value(); return v }
+func specInt64Err(r Reader) error { _, e := r.Int64Value(); return e }
+func specBigOf(r Reader) *big.Int { v, _ := r.BigIntValue(); return v }
+func specBigErr(r Reader) error   { _, e := r.BigIntValue(); return e }
+
+// The key under which a catalog files a table by name and version, and whether it has a
+// latest version of a name.
+func specCatalogKey(name string, version int) string { return fmt.Sprintf("%v/%v", name, version) }
+func specHasLatest(c *basicCatalog, name string) bool {
+	_, ok := c.latest[name]
+	return ok
+}
+
+// The decimal text of an integer as the text writer must spell it.
+func specIntText(v int64) string   { return strconv.FormatInt(v, 10) }
+func specUintText(v uint64) string { return strconv.FormatUint(v, 10) }
+
+func specIntOf(r Reader) *int            { v, _ := r.IntValue(); return v }
+func specIntSizeOf(r Reader) IntSize     { v, _ := r.IntSize(); return v }
 func specBoolOf(r Reader) *bool          { v, _ := r.BoolValue(); return v }
 func specFloatOf(r Reader) *float64      { v, _ := r.FloatValue(); return v }
 func specStringOf(r Reader) *string      { v, _ := r.StringValue(); return v }
